@@ -2,6 +2,7 @@
    Property theorems only; CS is the state type of arbitrary (also user-defined) checks. *)
 From Coq Require Import String.
 From CP Require Import Model.Base Model.Ranges Model.Fields Model.Validio Model.ValidioInst Spec.ValidioSpec Proofs.ValidioProofs.
+From CP Require Import Model.Location Proofs.LocationProofs.
 
 (* accepted <-> right number of items, every item accepted by the field in its position, every row check passes *)
 Theorem row_accept_iff : forall (CS : Type) (c : cid CS) sts l row,
@@ -29,6 +30,19 @@ Theorem reader_row_numbers : forall (CS : Type) (c : cid CS) limit sts_in raws f
   reader_rows c MYield limit sts_in raws fault = (sf, outs, r, evs) ->
   outs = yield_spec c limit 1 (resets (c_checks c)) raws.
 Proof. intros CS c limit sts_in raws fault sf outs r evs H. exact (proj1 (reader_yield c limit sts_in raws fault sf outs r evs H)). Qed.
+
+(* how the location reaches the reader of a message: the text printed for a location in tabular data ends in
+   R<row>C<column>, both counted from 1, whatever path, sheet and history the location object has; they can be read
+   back from the end of the text *)
+Theorem error_text_names_row_and_column : forall l : location, lo_has_cell l = true -> lo_has_column l = false ->
+  rc_of_text (loc_text l) = Some (Z.of_nat (lo_line l) + 1, Z.of_nat (lo_cell l) + 1)%Z.
+Proof. exact loc_text_names_row_and_cell. Qed.
+Example location_text_example :
+  option_map loc_text (lsteps (new_location (txt "some/dir/data (R9C9).csv") false true false) [LAdvLine 1; LAdvLine 1; LSetCell 4])
+  = Some (txt "data (R9C9).csv (R3C5)")
+  /\ option_map loc_text (lsteps (new_location (txt "x.ods") false true true) [LAdvSheet; LAdvLine 10; LAdvCell 2]) = Some (txt "x.ods (Sheet2!R11C3)")
+  /\ lsteps (new_location (txt "x.ods") false true true) [LAdvLine 0] = None.
+Proof. repeat split; vm_compute; reflexivity. Qed.
 
 (* non-vacuity: header 1, second data row has a bad second cell -> error at row 3 (index 2), column 2 (index 1) *)
 Example culprit_example :
